@@ -39,15 +39,26 @@ def _f(x):
 @st.composite
 def _residue(draw, resname, prefix):
     n = draw(st.integers(1, 7))
-    shape = draw(st.sampled_from(["chain", "chain", "ring", "star"])) if n >= 3 else "chain"
+    shape = draw(st.sampled_from(["chain", "chain", "ring", "star", "frustrated"])) if n >= 3 else "chain"
+    if shape == "frustrated":
+        n = 3
     names = [f"{prefix}{i + 1}" for i in range(n)]
     bonds = []
     if shape == "chain":
         pairs = [(i, i + 1) for i in range(n - 1)]
-    elif shape == "ring":
+    elif shape in ("ring", "frustrated"):
         pairs = [(i, i + 1) for i in range(n - 1)] + [(n - 1, 0)]
     else:
         pairs = [(0, i) for i in range(1, n)]
+    if shape == "frustrated":
+        # a triangle whose lengths cannot all be met (the long side exceeds the sum of the others): the
+        # optimiser ends with every member off by a few hundredths of a nm
+        short = draw(st.sampled_from([0.2, 0.25, 0.3]))
+        long_ = round(2 * short + draw(st.sampled_from([0.1, 0.15, 0.2, 0.3, 0.45])), 3)
+        lengths = list(draw(st.permutations([short, short, long_])))
+        for (a, b), length in zip(pairs, lengths):
+            bonds.append(["constraints" if draw(st.booleans()) else "bonds", a, b, length])
+        pairs = []
     for (a, b) in pairs:
         kind = "constraints" if draw(st.integers(0, 4)) == 0 else "bonds"
         bonds.append([kind, a, b, draw(st.sampled_from([0.15, 0.25, 0.3, 0.37, 0.47]))])
